@@ -258,12 +258,11 @@ class StmtInferrer(ast.NodeVisitor):
 
   def visit_Tuple(self, node):
     if isinstance(node.ctx, ast.Load):
-      elt_types = ()
-      for elt in node.elts:
-        types_ = self.visit(elt)
-        if types_ is None:
-          return None
-        elt_types += (types_,)
+      # Every element is visited, also after one of unknown type: each visit
+      # brings the element's own annotations up to date.
+      elt_types = tuple(self.visit(elt) for elt in node.elts)
+      if any(types_ is None for types_ in elt_types):
+        return None
       return set(itertools.product(*elt_types))
     return self._apply_unpacking(node)
 
